@@ -19,6 +19,7 @@ inductive Out where
   | token (r : Res TokenResponse)
   | auth (r : Res AuthOut)
   | seeded
+  deriving DecidableEq, Repr
 
 def step (cfg : Cfg) (sha : String → String) (w : World) (t : Nat) : Op → World × Out
   | .s2s r => let (w', res) := issueS2S cfg w t r; (w', .token res)
